@@ -91,10 +91,9 @@ Walk(m, ks, lvl, q) ==
 
 BitIdx == 0..H      \* bitmap positions (the Go bitmap always has at least one spare bit)
 
-\* the honest answer of the node for key q against committed root ri
-Honest(ri, q, enc) ==
-  LET m  == hist[ri]
-      w  == Walk(m, DOMAIN m, 0, q)
+\* the answer of a node that walks the tree of contents m for key q, sent as the answer for root ri
+HonestOf(m, ri, q, enc) ==
+  LET w  == Walk(m, DOMAIN m, 0, q)
       nd == SelectSeq(w.ap, LAMBDA h : h # Default)
   IN [kind |-> "proof", ri |-> ri, key |-> q, enc |-> enc, forged |-> NoForge,
       incl |-> w.incl,
@@ -104,6 +103,9 @@ Honest(ri, q, enc) ==
       ap   |-> IF enc = "plain" THEN w.ap ELSE nd,
       bm   |-> IF enc = "plain" THEN {} ELSE {i \in BitIdx : i < Len(w.ap) /\ w.ap[i + 1] # Default},
       height |-> IF enc = "plain" THEN 0 ELSE Len(w.ap)]
+
+\* the honest answer of the node for key q against committed root ri
+Honest(ri, q, enc) == HonestOf(hist[ri], ri, q, enc)
 
 \* ------------------------------------------------------------------ verification (VerifyInclusion(C), VerifyNonInclusion(C))
 \* verifyInclusion: level i (from the root) uses ap[len-i-1] (0-based) = ap[Len(ap)-i] (1-based)
